@@ -1,2 +1,43 @@
+(* Statement pins: each property theorem is re-checked against the statement recorded here, so
+   a theorem cannot be weakened in its own file without this file failing to compile. *)
 From BT Require Import Base.Util.
-From BT Require Properties.C19.
+From BT Require Generated.Consts Model.AutoSql Proofs.AutoSqlTotal Proofs.AutoSqlGen Proofs.AutoSqlStore Properties.C19.
+
+Module PinC19.
+Import Generated.Consts Model.AutoSql Proofs.AutoSqlTotal Proofs.AutoSqlGen Proofs.AutoSqlStore Properties.C19.
+Local Open Scope nat_scope.
+Check (C19_parser_total : forall (s : list N) (fuel : nat), parse_fuel s <= fuel ->
+  (exists ds, parse_autosql fuel s = Ok ds) \/ (exists c, parse_autosql fuel s = Err c)).
+Check (C19_parser_output_bounded : forall (s : list N) (fuel : nat) ds, parse_fuel s <= fuel ->
+  parse_autosql fuel s = Ok ds ->
+  length ds <= N.to_nat AUTOSQL_DECL_CAP + 1 /\ decls_weight ds <= length s).
+Check (C19_generated_field_count : forall n, declared_fields (bed_autosql_n n) = 3 + n).
+Check (C19_generated_field_count_rest : forall cols, Forall no_sep cols -> join_cols cols <> [] ->
+  declared_fields (bed_autosql (join_cols cols)) = 3 + length cols).
+Check (C19_generated_field_count_bed3_line : declared_fields (bed_autosql []) = 3).
+Check (C19_parse_generated : forall n, exists d,
+  parse (bed_autosql_n n) = Ok [d] /\ length (d_fields d) = 3 + n
+  /\ d_type d = Table /\ dn_name (d_name d) = [98; 101; 100]%N).
+Check (C19_header_field_count : forall n, (N.of_nat (3 + n) < 65536)%N ->
+  write_pre_schema (Some (bed_autosql_n n)) = Ok (bed_autosql_n n, N.of_nat (3 + n))).
+Check (C19_header_field_count_tool : forall cols, Forall no_sep cols -> join_cols cols <> [] ->
+  (N.of_nat (3 + length cols) < 65536)%N ->
+  write_pre_schema (Some (bed_autosql (join_cols cols)))
+  = Ok (bed_autosql (join_cols cols), N.of_nat (3 + length cols))
+  /\ declared_fields (bed_autosql (join_cols cols)) = 3 + length cols).
+Check (C19_supplied_schema_verbatim : forall s,
+  (has_nul s = true -> write_pre_schema (Some s) = Err E_NulInSchema) /\
+  (has_nul s = false -> write_pre_schema (Some s) = Ok (s, (count_of (parse s) mod 65536)%N))).
+Check (C19_stored_is_supplied : forall s stored fc,
+  write_pre_schema (Some s) = Ok (stored, fc) -> stored = s /\ has_nul s = false /\ (fc < 65536)%N).
+Check (C19_write_pre_total : forall o,
+  (exists v, write_pre_schema o = Ok v) \/ write_pre_schema o = Err E_NulInSchema).
+Check (C19_default_schema :
+  write_pre_schema None = Ok (AUTOSQL_BED3, 3%N) /\ declared_fields AUTOSQL_BED3 = 3).
+(* the definitions the statements rest on, pinned as well *)
+Check (eq_refl : parse_fuel = fun data => length data + N.to_nat AUTOSQL_DECL_CAP + 2).
+Check (eq_refl : parse = fun data => parse_autosql (parse_fuel data) data).
+Check (eq_refl : declared_fields = count_semis false).
+Check (eq_refl : has_nul = existsb (N.eqb 0)).
+Check (eq_refl : no_sep = fun c => Forall (fun x => (x =? AUTOSQL_COLUMN_SEP)%N = false) c).
+End PinC19.
